@@ -119,3 +119,15 @@ func returnsOfLit(lit *ast.FuncLit) []*ast.ReturnStmt {
 	})
 	return out
 }
+
+// lookupConst returns a package-level constant as an abstract value.
+func lookupConst(p *core.Program, rel, name string) absint.Val {
+	pkg := p.Pkg(rel)
+	if pkg == nil {
+		return absint.S("?" + name)
+	}
+	if c, ok := pkg.Types.Scope().Lookup(name).(*types.Const); ok {
+		return absint.Const{V: c.Val()}
+	}
+	return absint.S("?" + name)
+}
